@@ -35,13 +35,28 @@ class Event:
         return f"<Event {self.kind} @{getattr(self.node, 'lineno', 0)}>"
 
 
+def _recv(T, node):
+    """receiver term; a local alias that was only updated in place since it
+    was bound (a = xs[i]; a += ..) denotes the object it was bound to"""
+    t = T.of(node)
+    if isinstance(node, ast.Name) and t[0] == "var":
+        try:
+            b = alias_base(T.du, T, node)
+        except Exception:  # noqa: BLE001
+            b = None
+        if b is not None:
+            return b
+    return t
+
+
 def container_events(fnode, T, cfg):
     out = []
     for n in walk_own(fnode):
         if isinstance(n, ast.Assign):
             for tg in n.targets:
                 if isinstance(tg, ast.Subscript):
-                    out.append(Event("store", T.of(tg.value), T.of(tg.slice),
+                    out.append(Event("store", _recv(T, tg.value),
+                                     T.of(tg.slice),
                                      (), {}, tg, n, T.of(n.value)))
                 elif isinstance(tg, (ast.Tuple, ast.List)):
                     # (d[k], x) = value : element i of the value is stored
@@ -53,7 +68,7 @@ def container_events(fnode, T, cfg):
                                 {}, el, n, ("item", vt, i)))
         elif isinstance(n, ast.AugAssign) and isinstance(
                 n.target, ast.Subscript):
-            out.append(Event("aug", T.of(n.target.value),
+            out.append(Event("aug", _recv(T, n.target.value),
                              T.of(n.target.slice), (), {}, n.target, n,
                              T.of(n.value)))
         elif isinstance(n, ast.Delete):
@@ -68,7 +83,7 @@ def container_events(fnode, T, cfg):
             except Exception:
                 st = None
             out.append(Event(
-                n.func.attr, T.of(n.func.value), None,
+                n.func.attr, _recv(T, n.func.value), None,
                 tuple(T.of(a) for a in n.args),
                 {k.arg: T.of(k.value) for k in n.keywords if k.arg},
                 n, st))
@@ -133,4 +148,53 @@ def accumulations(fnode, T, name):
                     is_x(v.func.value):
                 for a in v.args:
                     spread(n, a)
+    return out
+
+
+_INPLACE_OPS = ("Add", "BitOr", "BitAnd", "Sub", "BitXor", "Mult")
+
+
+def alias_base(du, T, name_node):
+    """Term of the object a name denotes when every definition reaching
+    ``name_node`` is one plain assignment ``a = E``, possibly followed by
+    in-place augmented assignments (``a += x`` keeps the identity of a
+    list / set / dict).  None otherwise."""
+    seen, work, bases = set(), list(du.defs_of(name_node)), {}
+    while work:
+        d = work.pop()
+        if id(d) in seen:
+            continue
+        seen.add(id(d))
+        ex = d.extra or {}
+        if d.kind == "aug" and ex.get("op") in _INPLACE_OPS:
+            work.extend(x for x in ex.get("prev", ()) if hasattr(x, "kind"))
+        elif d.kind == "assign" and not ex.get("path") and \
+                d.value is not None:
+            v = d.value
+            if isinstance(v, ast.Subscript) and isinstance(
+                    v.value, ast.Name):
+                # keep the identity of the container variable: xs[i], not
+                # the value xs was initialised with
+                t = ("sub", ("var", v.value.id, ()), T.of(v.slice))
+            else:
+                t = T.of(v)
+            bases[repr(t)] = t
+        else:
+            return None
+    return next(iter(bases.values())) if len(bases) == 1 else None
+
+
+def name_aug_events(fnode, du, T, cfg):
+    """``a += E`` / ``a |= E`` on a plain name as container events: the
+    receiver is the object ``a`` aliases (see alias_base), so an update
+    through ``a = xs[i]; a += more`` is reported on ``xs[i]``."""
+    out = []
+    for n in walk_own(fnode):
+        if isinstance(n, ast.AugAssign) and isinstance(n.target, ast.Name) \
+                and type(n.op).__name__ in _INPLACE_OPS:
+            base = alias_base(du, T, n.target)
+            if base is None:
+                continue
+            out.append(Event("aug", base, None, (), {}, n.target, n,
+                             T.of(n.value)))
     return out
